@@ -434,6 +434,11 @@ def readPlain (x : Ext) (s : String) : Option String :=
 def readText (x : Ext) (p : String × Bool) : Option String :=
   if p.2 then some p.1 else readPlain x p.1
 
+def readPair (x : Ext) (p : (String × Bool) × (String × Bool)) : Option (String × String) :=
+  match readText x p.1, readText x p.2 with
+  | some k, some v => some (k, v)
+  | _, _ => none
+
 def allSome {α : Type} : List (Option α) → Option (List α)
   | [] => some []
   | none :: _ => none
@@ -447,12 +452,7 @@ def yamlOf (x : Ext) : V2 → YV
   | .mem q u => .memtext (q * u)
   | .items l => match allSome (l.map (readPlain x)) with | some l' => .strs l' | none => .bad
   | .qitems l => match allSome (l.map (readText x)) with | some l' => .strs l' | none => .bad
-  | .table l =>
-    match allSome (l.map fun p => match readText x p.1, readText x p.2 with
-        | some k, some v => some (k, v)
-        | _, _ => none) with
-    | some kv => .tbl kv
-    | none => .bad
+  | .table l => match allSome (l.map (readPair x)) with | some kv => .tbl kv | none => .bad
   | .junk => .bad
 
 /-- `validateDatatype` + decode into the config struct. -/
